@@ -80,8 +80,8 @@ PROPS["C04"] = {
     "text": "Each pipeline step is proved against the abstract step contract: it returns None exactly when it consumes the read, and "
             "then exactly one write on exactly one writer and/or exactly one filter counter increment happened (ghost write log); "
             "sinks pair write and statistics update.  SingleEndPipeline.process_reads: every input read starts exactly one chain of calls, which ends at the first step that returns None.",
-    "note": "Trusted: writers write what they are given; Predicate.test deterministic.  Report arithmetic (Statistics.collect / as_json) "
-            "is checked by a bounded native stand-in.",
+    "note": "Trusted: writers write what they are given; Predicate.test deterministic.  Statistics.collect / __iadd__ are under contract (cstats.py); the "
+            "rendering of the report (as_json, report.py) is exercised by the bounded command-line grid only.",
     "assumptions": ["writes are observed through a ghost log, not through files"],
 }
 
@@ -89,9 +89,11 @@ PROPS["C15"] = {
     "level": "other",
     "text": "The three demultiplexers are proved to write every read (pair) exactly once to the writer selected by the name of the "
             "last match on R1 (the pair of names), to the untrimmed writer, or to count it as discarded; demultiplex-mode detection is "
-            "proved as a truth table.  File creation for every name is covered by a bounded native stand-in.",
+            "proved as a truth table.  Demultiplexer._open_writers / PairedDemultiplexer._open_writers: one writer per adapter name, opened "
+            "on the template with {name} replaced, plus the untrimmed writer iff requested.  Bounded: file creation of the combinatorial "
+            "demultiplexer and of the whole command line.",
     "note": "Trusted: dict lookups as uninterpreted functions of the key; adapter names of matches are among the configured names.",
-    "assumptions": ["file creation (_open_writers) is exercised natively, not proved"],
+    "assumptions": ["CombinatorialDemultiplexer._open_writers is exercised natively, not proved"],
 }
 
 PROPS["C05"] = {
@@ -112,7 +114,8 @@ PROPS["C11"] = {
             "iff a file was given (C04 step contracts).  Bounded: the order of the filter steps built by the command line is exercised "
             "on a grid, predicting each read's destination from the statement.  Both process_reads loops: a chain ends at the first call that returns None, so no later filter or output sees the read.",
     "note": "Trusted: floats as reals; expected_errors by its (proved, C14) contract; str.partition semantics.",
-    "assumptions": ["the step order produced by cli.make_pipeline_from_args is covered by the bounded stand-in only"],
+    "assumptions": ["the step-building segment of cli.make_pipeline_from_args is under contract with predicate constructors abstract "
+                    "(their own constructor contracts establish the stored thresholds); whole-command-line behaviour is bounded"],
 }
 
 PROPS["C10"] = {
@@ -131,8 +134,9 @@ PROPS["C01"] = {
             "access, result intervals inside read and adapter, placement rule of the flag set, minimum overlap, N-discounted "
             "tolerance, and existence of an alignment of the reported cost, for all adapters, reads, error rates and flag sets.  Also proved: the match_to methods of the six single-adapter classes hand the aligner's result on unchanged (mirrored for the rightmost 5' adapter) as a match of the documented kind.",
     "note": "Trusted: double arithmetic as the uninterpreted monotone function budget(L); translate() byte tables (checked "
-            "exhaustively); the thin match_to wrappers of the adapter classes (argument passing to locate, RightmostFrontAdapter's "
-            "coordinate mirroring) are not under contract — they are exercised by the cross-check only.",
+            "exhaustively); at the match_to wrappers' call sites the aligner is abstract (its proved interval clause) and assumed built "
+            "from the adapter's own sequence (the _aligner / _make_aligner methods are under contract; the constructor wiring "
+            "`self.aligner = self._aligner()` is not).",
     "assumptions": ["indel cost is 1 or 100000 (the two values the constructor can set)", "rate in [0, 1]"],
 }
 
@@ -159,9 +163,12 @@ PROPS["C08"] = {
     "level": "other",
     "text": "Proved on AdapterIndex._match_to_one_length / _match_to_multiple_lengths (both anchor sides): a reported match has its "
             "coordinates inside the read, removes exactly an affix of an indexed length, and carries the adapter, errors and score of "
-            "the index entry.  Bounded: that the index holds exactly the neighbourhood of each adapter with exact error counts, the "
-            "ambiguity rule, and agreement of indexed and one-by-one search.",
-    "note": "Trusted: the dictionary as an abstract map; hamming_sphere/edit_environment and _make_index only exercised natively.",
+            "the index entry; for several affix lengths the reported entry is the optimum (most matches, then fewest errors) over all "
+            "indexed lengths that hit.  AdapterIndex._make_index: every entry is genuine, the best entry per key is kept, ambiguity is "
+            "recorded exactly and ambiguous keys are removed; _accept / _split_adapters / _regroup_into_indexed_adapters decide which "
+            "adapters are indexed.  Bounded: that hamming_sphere / edit_environment enumerate exactly the neighbourhood with exact "
+            "error counts, and agreement of indexed and one-by-one search.",
+    "note": "Trusted: the dictionary as an abstract map; hamming_sphere/edit_environment (Cython generators) are abstract in _make_index and only exercised natively.",
     "assumptions": ["reads without N for the proved part (the N fallback re-aligns with the adapter's own match_to)"],
 }
 
